@@ -192,6 +192,15 @@ def run(res, tier):
     if n_sock < 1:
         raise AnalysisBroken('LIFECYCLE: no function resets the wake-up sockets')
     f = fx.fn1(TH + '::StartInternalThread')
+    mi_ = fx.enum_const('MESSAGE_THREAD_INTERNAL')
+    pk = [v for v in f.walk() if v['k'] == 'VarDecl' and v['ch'] and any(x.get('q') == MSGS for x in v['ch'][0].walk())]
+    okq = bool(pk)
+    for v in pk:
+        subs = [x for x in v['ch'][0].walk() if x['k'] == 'ArraySubscriptExpr']
+        okq = okq and bool(subs) and all(A.strip_casts(x['ch'][1]).get('v') == mi_ for x in subs)
+    res.ob('LIFECYCLE', f.where(pk[0]) if pk else f.where(), 'StartInternalThread looks at the INTERNAL thread\'s queue when it decides on the initial signal', okq, function=f.q, key='LIFECYCLE|%s|which-queue' % f.q,
+           message='StartInternalThread decides on the initial wake-up signal from a queue other than _threadData[MESSAGE_THREAD_INTERNAL]: Messages queued for the internal thread before the start produce no '
+                   'signal; a thread that blocks on its wake-up socket first never sees them, and since signals are sent only on the empty-to-non-empty transition, nothing ever wakes it')
     peek = [v for v in f.walk() if v['k'] == 'VarDecl' and v['ch'] and any(x.get('q') == MSGS for x in v['ch'][0].walk()) and any((x.get('q') or '').endswith('::HasItems') for x in v['ch'][0].walk() if x.is_call())]
     sig = P.calls(f, r'::SignalInternalThread$')
     start = P.calls(f, r'::StartInternalThreadAux$')
